@@ -245,7 +245,7 @@ fn edge_props(prop: &str, tier: &str, seed: u64, threads: usize, out: &str) {
                 let op = match rng.below(6) { 0 | 1 => format!("d.{a}.{b}"), 2 => format!("c.{a}.{b}.{}", rng.below(3)), 3 => format!("t.{a}.{b}.{}", rng.below(3)), 4 => format!("x.{}", if rng.chance(50) { a } else { b }), _ => format!("q.{a}.{b}") };
                 ents.push(format!("{}={op}", rng.below(4)));
             }
-            l.push(format!("iter {which} {u} {}{}", ents.join(";"), if rng.chance(50) { " fold" } else { "" }));
+            l.push(format!("iter {which} {u} {}{}", ents.join(";"), ["", " fold", " over", " fold over"][rng.below(4)]));
             l.push("dump".into());
         }
         l
@@ -1144,6 +1144,48 @@ fn c15_props(tier: &str, seed: u64, threads: usize, out: &str) {
         ctx.count("cases");
     });
     extra.insert("ownership".into(), format!("{nown} ownership histories run on both members of a pair (differential only)"));
+    // edge loops whose body mutates, next to a second iterator that was stepped once (or sent past the end) and is
+    // drained afterwards: the same yields and the same remainder in both members of a pair
+    exec::new_section();
+    let nll = if quick { 400 } else { 8000 };
+    spread_with(&mut ctxs, nll, |i, ctx| {
+        let mut rng = Rng::new(seed.wrapping_mul(137).wrapping_add(i as u64));
+        let (a, b) = if i % 2 == 0 { ("di", "sdi") } else { ("un", "sun") };
+        let nn = 2 + rng.below(4);
+        let ncalls = 8 + rng.below(16);
+        let mut lines = gen_edge::random_history(&mut rng, a, &format!("ll{i}"), nn, ncalls, false);
+        lines.retain(|x| !x.starts_with("sz ") && !x.starts_with("ecmp ") && !x.starts_with("lt"));
+        lines.push("g.new 0".into());
+        for _ in 0..1 + rng.below(3) {
+            let u = rng.below(nn);
+            let which = if a == "di" { ["out", "in"][rng.below(2)] } else { "adj" };
+            let (x, y) = (if rng.chance(70) { u } else { rng.below(nn) }, if rng.chance(30) { u } else { rng.below(nn) });
+            let op = match rng.below(5) { 0 | 1 => format!("c.{x}.{y}.{}", rng.below(3)), 2 => format!("d.{x}.{y}"), 3 => format!("t.{x}.{y}.1"), _ => format!("x.{y}") };
+            lines.push(format!("iter {which} {u} {}={op}{}", rng.below(3), ["", " fold", " over", " fold over"][rng.below(4)]));
+            lines.push("dump".into());
+        }
+        let mut lines_b = lines.clone();
+        lines_b[0] = format!("case {b} ll{i}");
+        let mut ca = Ctx::default();
+        let mut cb = Ctx::default();
+        exec::run_program(&lines, &mut ca);
+        exec::run_program(&lines_b, &mut cb);
+        ctx.side_prog.extend(lines.iter().cloned());
+        for j in 0..ca.outs.len().max(cb.outs.len()) {
+            let (x, y) = (ca.outs.get(j).cloned().unwrap_or("<missing>".into()), cb.outs.get(j).cloned().unwrap_or("<missing>".into()));
+            if x != y {
+                let req = ca.prog.get(j).cloned().unwrap_or_default();
+                ctx.fail(&lines[0], j.saturating_sub(1), "c15", format!("(edge loop with a suspended second iterator) `{}`: {a} gives `{}` but {b} gives `{}`", req, x, y));
+                if let Some(f) = ctx.fails.last_mut() {
+                    f.side = true;
+                }
+                break;
+            }
+        }
+        ctx.count("pairs.live_loops");
+        ctx.count("cases");
+    });
+    extra.insert("live_loops".into(), format!("{nll} histories with edge loops whose body mutates and a suspended second iterator, run on both members of a pair"));
     // priority-first traversals over node values that the closure changes while nodes are queued
     exec::new_section();
     let npm = if quick { 300 } else { 6000 };
